@@ -22,27 +22,44 @@ which the driver derives
     name the case ids.
 
 Acceptance is defined from the statement: acc(spec, v) := spec.apply(v) does
-not raise TypeError / ValueError / KeyError (anything else is a failure).  All
-specs are applied to the union of all pools (the acceptance matrix); the laws
-of the statement are then checked on the matrix:
+not raise TypeError / ValueError / KeyError (anything else is a failure).  A
+*value of* a spec is a value the spec accepts and maps to itself (same
+structure, same leaf types): an int given to a Float, a dict with a missing key
+that is filled with its default, 1 given to a Bool frozen to True are accepted
+*inputs* that the spec converts, not values of the spec, and the containment
+laws below are demanded for values only (is_compatible: "can receive all
+values from the other spec").  Every spec is applied to its own pool and to a
+core pool; further cells of the acceptance matrix are evaluated when a law
+needs them.  The laws:
 
   apply.*     r = apply(v) is accepted again, apply(r) is r (same structure,
               same leaf types), the spec is unchanged (== and repr of a clone)
-  default.*   the default of a spec is accepted by it (also after noneable(),
-              freeze(), extend())
-  compat.*    a.is_compatible(b)  =>  every pooled value b accepts, a accepts
-  extend.*    clone(c).extend(b) succeeded  =>  every pooled value the extended
-              spec accepts is accepted by b (for the fields they share),
-              b.is_compatible(extended), the default is still accepted
-  union.*     a Union accepts a value iff one of its candidates does
-  frozen.*    a frozen spec accepts exactly its frozen value
-  schema.*    the same at Schema level and through pg.Object subclassing
+  accept.*    acceptance agrees with the structural expectation where there is one
+  default.*   the default of a spec is accepted by it (allow_partial: defaults
+              may be partial), also after noneable(), freeze(), extend()
+  compat.*    a.is_compatible(b)  =>  every pooled value of b is accepted by a
+  extend.*    clone(c).extend(b) succeeded  =>  every pooled value of the
+              extension is accepted by b (on the fields the Dict schemas share),
+              b.is_compatible(extension) (same Dict keys), default still accepted
+  union.*     a Union accepts a value only if a candidate does, and accepts
+              every value that a candidate holds as it is
+  frozen.*    a frozen spec accepts its frozen value, yields it, and rejects
+              every value that is not equal to it
+  schema.*    the same through Schema.extend / Schema.is_compatible and through
+              pg.Object subclasses overriding a field (3 layouts: same keys,
+              a field only in the base, a field only in the child)
+
+Case ids end in the *input class* of the refuting value: the innermost
+constraint of the rejecting spec that says no (`diag`: int-max, list-min-size,
+tuple-max-size, dict-key, frozen, none:<Class>, callable-args, enum-...,
+union-shadowed, union-unused-<value>-for-<Candidate>), so
+that one defect gives one id wherever it is nested.
 
 Str specs with a regular expression take part in the apply/default/frozen
 checks only (the statement excludes them from compatibility).  Specs with a
 user transform (always a total, idempotent converter here) take part in the
-apply/default checks and as *bases* of extensions only: what a user function
-accepts is not something is_compatible could know.
+apply/default checks and as *bases* of extensions of their own class only:
+what a user function accepts is not something is_compatible could know.
 """
 import copy
 import itertools
@@ -374,7 +391,11 @@ def field_for_key(a, key):
 
 def has_default(a):
   """Whether a missing dict key governed by `a` is filled in (True/False/None)."""
-  if a['frozen'] is not None or a['default'] is not None or a['noneable']:
+  if a['frozen'] is not None or a['default'] is not None:
+    return True
+  if a['k'] == 'Enum':
+    return False            # Enum.noneable() adds None to the values, no default.
+  if a['noneable']:
     return True
   if a['k'] == 'Dict':
     if a['nn_ctor']:
@@ -618,6 +639,9 @@ def diag(a, v):
     for c in a['cands']:
       if live_acc(c, copy.deepcopy(v)):
         return 'union-' + shadow_tag(a, v, c)
+    typed = [c for c in flat_cands(a) if pytypes(c) and isinstance(v, pytypes(c))]
+    if len(typed) == 1:
+      return diag(typed[0], v)       # the only candidate for values of this type.
     return 'union-no-candidate'
   return low
 
@@ -970,10 +994,13 @@ def containers(tier):
       Union([Any(), Int()]), Union([Int(), Any()]),
       Union([Int(noneable=True), Str()]), Union([Int(), Str(noneable=True)]),
       Union([Object('K'), Callable([Int()])]), Union([Callable([Int()]), Object('K')]),
+      Union([Float(0.5), Union([Callable(), Float(None, 1.0)])]),
+      Union([Str(frozen="'a'"), Int()]), Union([Type('P'), Callable([Int()])]),
   ]
   for a in unions:
     out.append(a)
-  for a in (unions[0], unions[2], unions[4], unions[20]):
+  out += modifiers(unions[0], full=True)[1:]
+  for a in (unions[2], unions[4], unions[20]):
     out += modifiers(a, full=thorough)[1:]
   return out
 
@@ -1222,7 +1249,9 @@ class Universe:
     for i, (sobj, e) in enumerate(zip(self.specs, self.exprs)):
       k = self.descs[i]['k']
       clone = ev(e)
-      same = (sobj == clone and clone == sobj and repr(sobj) == repr(clone))
+      same = repr(sobj) == repr(clone)
+      if clone == ev(e):      # (some specs are not equal to their own clones.)
+        same = same and sobj == clone and clone == sobj
       w = ''
       if not same:
         culprit = None               # the first value whose application changes it.
@@ -1354,7 +1383,7 @@ def _check_default(rec, cid, e, sobj, k):
     return
   try:
     dd = copy.deepcopy(d)
-    sobj.apply(dd, allow_partial=has_missing(dd))
+    sobj.apply(dd, allow_partial=True)
     rec.case(f'{cid}/{k}', e, True)
   except Exception as ex:  # pylint: disable=broad-except
     w = (pre(e) + f's = {e}\nd = s.default\nimport copy\n'
@@ -1392,7 +1421,9 @@ def shadow_tag(a, v, accepting):
       continue
     ts = pytypes(c)
     if ts and isinstance(v, ts):
-      return f'shadowed-{vkind(v)}-for-{accepting["k"]}-by-{c["k"]}'
+      # another candidate matches the type of v (and rejects v): the union
+      # dispatches on the first type match.  One input class, whatever the types.
+      return 'shadowed'
   return f'unused-{vkind(v)}-for-{accepting["k"]}'
 
 
@@ -1430,15 +1461,28 @@ def _check_union(rec, U, i):
 
 def compat_tag(a, b, sb, v):
   """Input class of a compatibility claim a <- b refuted by value v."""
+  if b['k'] == 'Union' and b['frozen'] is None and v is not None:
+    # the candidate of b that holds v.
+    for bc in flat_cands(b):
+      try:
+        sbc = ev(to_expr(bc))
+        if live_acc(bc, copy.deepcopy(v)) and ev(to_expr(a)).is_compatible(sbc):
+          return compat_tag(a, bc, sbc, v)
+      except Exception:  # pylint: disable=broad-except
+        pass
   if a['k'] == 'Union' and a['frozen'] is None:
     # the candidate on which the claim rests.
     for c in a['cands']:
+      if a['noneable'] and c['k'] != 'Any':
+        c = mod(c, noneable=True)      # Union.noneable() makes its candidates noneable.
       try:
         if ev(to_expr(c)).is_compatible(sb) and not live_acc(c, copy.deepcopy(v)):
           return compat_tag(c, b, sb, v)
       except Exception:  # pylint: disable=broad-except
         pass
   tag = diag(a, v)
+  if tag == 'none':
+    tag = 'none:' + ('Callable' if a['k'] == 'Functor' else a['k'])
   if a['k'] in ('Callable', 'Functor') and b['k'] == 'Object' and tag != 'frozen':
     tag += '<-Object'       # the claim comes from Callable.is_compatible(Object).
   return tag
@@ -1497,7 +1541,16 @@ def drv_compat(tier, seed):
 
 def project(v, c, b):
   """v restricted to the fields the Dict schemas of c and b share."""
-  if c['k'] != b['k'] or v is None:
+  if v is None:
+    return v
+  if b['k'] == 'Union' or c['k'] == 'Union':
+    for cc in (flat_cands(c) if c['k'] == 'Union' else [c]):
+      for bb in (flat_cands(b) if b['k'] == 'Union' else [b]):
+        if (cc['k'] == bb['k'] and cc['k'] in ('Dict', 'List', 'Tuple') and
+            isinstance(v, pytypes(cc))):
+          return project(v, cc, bb)
+    return v
+  if c['k'] != b['k']:
     return v
   k = c['k']
   if k == 'Dict' and isinstance(v, dict) and c['fields'] is not None and b['fields'] is not None:
@@ -1531,6 +1584,12 @@ def origin(b, c):
   return '<-Object' if b['k'] in ('Callable', 'Functor') and c['k'] == 'Object' else ''
 
 
+def none_kind(tag, a):
+  if tag == 'none':
+    return 'none:' + ('Callable' if a['k'] == 'Functor' else a['k'])
+  return tag
+
+
 def flat_cands(u):
   for cand in u['cands']:
     if cand['k'] == 'Union':
@@ -1549,8 +1608,8 @@ def ext_tag(b, c, v):
     for cc in cs:
       same = [x for x in flat_cands(b) if x['k'] == cc['k']]
       if len(same) == 1 and not live_acc(same[0], copy.deepcopy(v)):
-        return diag(same[0], v)
-  return diag(b, v)
+        return none_kind(diag(same[0], v), same[0])
+  return none_kind(diag(b, v), b)
 
 
 def gap(c, b):
@@ -1570,6 +1629,8 @@ def gap(c, b):
         pairs = list(zip(tuple_elems(c), tuple_elems(b)))
       elif not tuple_fixed(c) and not tuple_fixed(b):
         pairs = [(c['elems'], b['elems'])]
+      elif tuple_fixed(c) and not tuple_fixed(b):
+        pairs = [(e, b['elems']) for e in tuple_elems(c)]
     elif k == 'Dict' and c['fields'] and b['fields']:
       bf = dict((key_expr(q), w) for q, w in b['fields'])
       pairs = [(w, bf[key_expr(q)]) for q, w in c['fields'] if key_expr(q) in bf]
@@ -1607,7 +1668,13 @@ def drv_extend(tier, seed):
     cpaths = paths[i]
     for j in range(n):
       b, eb = U.descs[j], U.exprs[j]
-      if tier == 'quick' and not _related(c, b) and r.random() > 0.04:
+      if tier == 'quick':
+        # related pairs; half of the (many) container / union pairs; 4% of the rest.
+        rel = _related(c, b)
+        p_keep = (0.5 if c['k'] == b['k'] and c['k'] in _BIG else 1.0) if rel else 0.04
+      else:
+        p_keep = 1.0 if _related(c, b) else 0.05
+      if p_keep < 1.0 and r.random() > p_keep:
         continue
       if has_transform(b) and b['k'] != c['k']:
         continue     # a user converter of another kind of spec: outside the algebra.
@@ -1676,7 +1743,7 @@ def drv_extend(tier, seed):
       if not is_missing(d):
         try:
           dd = copy.deepcopy(d)
-          ext.apply(dd, allow_partial=has_missing(dd))
+          ext.apply(dd, allow_partial=True)
           rec.case(f'extend.default-accepted/{c["k"]}', (ec, eb), True)
         except Exception as ex:  # pylint: disable=broad-except
           rec.case(f'extend.default-accepted/{c["k"]}', (ec, eb), False,
@@ -1692,7 +1759,7 @@ def drv_extend(tier, seed):
                f'{U.exprs[j]} was changed by serving as the base of extensions: {R(base)}',
                '# see message\nraise AssertionError("base changed by extend")')
   rec.scope = (f'{n_pairs} ordered pairs (c, b) of {n} regex-free specs '
-               f'({"same-family pairs + 4% sample of the rest" if tier == "quick" else "all pairs"}), '
+               f'({"related pairs (half of the List/Tuple/Dict/Union ones) + 4% of the rest" if tier == "quick" else "all related pairs + 5% of the rest"}), '
                f'{n_ok} successful extensions, each on the values of both pools + core that b '
                f'rejects{" and c accepts" if tier == "quick" else ""} ({len(U.pool)} distinct values)')
   return rec.result()
@@ -1707,6 +1774,7 @@ def kinds_in_union(a):
 
 _CALLS = ('Callable', 'Functor', 'Object')
 _PRIMS = ('Int', 'Float', 'Str', 'Bool', 'Enum', 'Any')
+_BIG = ('List', 'Tuple', 'Dict', 'Union')
 
 
 def _related(c, b):
@@ -1746,7 +1814,10 @@ def field_specs(tier, seed):
             Dict(), Dict([('p', Int())]), Dict([('p', Int(0)), ('q', Str(noneable=True))]),
             Object('A'), Object('B'), Union([Int(), Str()]), Union([Int(0), Str()]),
             Union([Float(0.0, 1.0), Int()]), Callable(), Callable([Int()]), Type('A'),
-            Type('B')]:
+            Type('B'), Callable([Int(), Float()]), Callable(returns=Str()), Object('K'),
+            Dict([('p', Int())], noneable=True), Union([Str(frozen="'a'"), Int()]),
+            Union([Int(None, 0), Bool()]), Union([Type('P'), Callable([Int()])]),
+            Enum(['1', '2']), Int(frozen='1', noneable=True)]:
     out.append(a)
   r = rng(seed, 'c04-fields')
   for _ in range(n_random(tier, 10, 60)):
@@ -1798,7 +1869,7 @@ def default_ok(spec):
     return None
   try:
     dd = copy.deepcopy(d)
-    spec.apply(dd, allow_partial=has_missing(dd))
+    spec.apply(dd, allow_partial=True)
     return True, ''
   except Exception as ex:  # pylint: disable=broad-except
     return False, f'{R(spec)} rejects its own default {R(d)}: {type(ex).__name__}: {ex}'
@@ -1985,7 +2056,7 @@ def _check_classes(rec, c, b, ec, eb, layout, xs):
   if not is_missing(d):
     dd = copy.deepcopy(d)
     try:
-      fx.apply(dd, allow_partial=has_missing(dd))
+      fx.apply(dd, allow_partial=True)
       ok, msg = True, ''
     except Exception as ex:  # pylint: disable=broad-except
       ok, msg = False, f'{type(ex).__name__}: {ex}'
